@@ -232,6 +232,13 @@ def apply_fault(hist, step):
             hist.count('c02_documented_queue_reset')
             hist.run(w.make_admin_job('rebuild_queues'), step)
         got = settle(hist, seed, step)
+        if any(i_.get('shared_commits') for i_ in w.prs.values()):
+            # two PRs proposing the same commits: which of them "lands"
+            # depends on evaluation order (and two identical PRs on one
+            # destination make the queue incoherent, a robustness issue
+            # outside C02); content equality is not asserted here
+            hist.count('c02_stat_shared_commit_world_not_compared')
+            return
         hist.count('c02_recoveries_compared')
         if step['job'].get('op') == 'admin' and step['job'].get('kind') in (
                 'create_branch', 'delete_branch'):
